@@ -475,3 +475,7 @@ mod tests {
         )
     }
 }
+
+#[cfg(kani)]
+#[path = "/verif/harness/range_writer.rs"]
+mod verif_harness;
